@@ -17,6 +17,7 @@ pub fn members(names: &[&str], args: &Args, ev: &mut Ev) -> Vec<wgen::Member> {
             "struct" => fam::struct_family(args.tier.g()),
             "funcs" => fam::funcs_family(args.tier.g()),
             "locals" => fam::locals_family(),
+            "locals-named" => fam::locals_named_family(),
             "customs" => fam::customs_family(args.tier.g()),
             "names" => fam::names_family(args.tier.g()),
             "reach" => fam::reach_family(args.tier.g()),
